@@ -24,10 +24,6 @@ end
 /-- the token after an algorithm's statements -/
 def EndTok (E : List DTok) : Prop := ∃ k rest, E = .kw k :: rest ∧ k ∈ ["END_FUNCTION", "END_PROCEDURE", "END_RULE", "WHERE"]
 
-/-- the first token is none of these keywords (and there is a first token that is not a declaration starter) -/
-def HeadOK (X : List DTok) : Prop :=
-  startsDecl X = false ∧ (∀ r', X ≠ .kw "CONSTANT" :: r')
-
 theorem stmt_not_decl (ts : List DTok) (h : startsStmt ts = true) :
     startsDecl ts = false ∧ (∀ r', ts ≠ .kw "CONSTANT" :: r') ∧ (∀ r', ts ≠ .kw "LOCAL" :: r') := by
   cases ts with
